@@ -56,14 +56,16 @@ theorem Ty.ind' {P : Ty → Prop}
     (many : ∀ t, P t → P (.many t))
     (union : ∀ ts, (∀ t ∈ ts, P t) → P (.union ts))
     (subclass : ∀ c, P (.subclass c))
-    (annotated : ∀ t, P t → P (.annotated t)) : ∀ T, P T
+    (annotated : ∀ t, P t → P (.annotated t))
+    (tvar : ∀ i, P (.tvar i)) : ∀ T, P T
   | .any => any | .known o => known o | .typed c => typed c | .newtype n c => newtype n c
-  | .generic c args => generic c args fun t _ => Ty.ind' any known typed newtype generic seq many union subclass annotated t
-  | .seq c ms => seq c ms fun t _ => Ty.ind' any known typed newtype generic seq many union subclass annotated t
-  | .many t => many t (Ty.ind' any known typed newtype generic seq many union subclass annotated t)
-  | .union ts => union ts fun t _ => Ty.ind' any known typed newtype generic seq many union subclass annotated t
+  | .generic c args => generic c args fun t _ => Ty.ind' any known typed newtype generic seq many union subclass annotated tvar t
+  | .seq c ms => seq c ms fun t _ => Ty.ind' any known typed newtype generic seq many union subclass annotated tvar t
+  | .many t => many t (Ty.ind' any known typed newtype generic seq many union subclass annotated tvar t)
+  | .union ts => union ts fun t _ => Ty.ind' any known typed newtype generic seq many union subclass annotated tvar t
   | .subclass c => subclass c
-  | .annotated t => annotated t (Ty.ind' any known typed newtype generic seq many union subclass annotated t)
+  | .tvar i => tvar i
+  | .annotated t => annotated t (Ty.ind' any known typed newtype generic seq many union subclass annotated tvar t)
 termination_by T => sizeOf T
 
 /-! ### list forms of the syntactic predicates -/
@@ -678,6 +680,7 @@ theorem ca_known_eq_mem (tbl : ClassTable) (L : Laws tbl) (T : Ty) :
   induction T using Ty.ind' with
   | any => intro o H; exact absurd H.wT (by simp [Ty.wf])
   | many t _ => intro o H; exact absurd H.wT (by simp [Ty.wf])
+  | tvar i => intro o H; exact absurd H.wT (by simp [Ty.wf])
   | known k => intro o H; simp only [ca, mem]; exact Obj.same_comm k o
   | typed c =>
     intro o H
